@@ -43,7 +43,8 @@ def _cond(draw, table, nrec):
 def _case(draw):
     table = draw(progs.tables(min_rows=2, max_rows=9))
     nrec = len(table["records"])
-    scan = draw(progs.scans(table))
+    # one case in four may scan the header row (physical line 0) too: control functions can fire there
+    scan = draw(progs.scans(table, from_data=draw(st.sampled_from([True, True, True, False]))))
     n = draw(st.integers(1, 5))
     comps = []
     for i in range(n):
